@@ -255,6 +255,8 @@ def c20_plan(tier, seed):
          "args": ["addr", "--prop", "C20", "--seed", str(seed + 1), "--n", str(n)]},
         {"name": "rptnew_%d" % seed, "prof": "dev", "trace_module": "Trace_PT",
          "args": ["rptnew", "--seed", str(seed), "--n", str(n)]},
+        {"name": "rptnew_%d" % seed, "prof": "rel", "trace_module": "Trace_PT",
+         "args": ["rptnew", "--seed", str(seed + 1), "--n", str(n)]},
         {"name": "pt_rec_%d" % seed, "prof": "dev", "trace_module": "Trace_PT",
          "args": ["pt", "--prop", "default", "--mode", "recursive", "--seed", str(seed + 3), "--n", str(n)],
          "vtimeout": 3600},
